@@ -263,6 +263,15 @@ class Engine(object):
     def stop(self):
         raise PathDone()
 
+    def instance(self, obj):
+        """The model instance of a (partly symbolic) value: every symbolic leaf
+        replaced by its value in a model of the current path condition.  Used
+        by oracles that must call C code (json, jsonschema)."""
+        if self.mode == "conc":
+            return obj
+        from . import values as V
+        return V.concretize(obj, self._model())
+
     # ------------------------------------------------------------ internals
     def _add(self, e, keep_model=False):
         self.solver.add(e)
